@@ -1543,6 +1543,7 @@ func (x *FnExec) storeGuards(fr *frame, n *node, in *ssa.Store, a *Addr, v Val) 
 		}
 		o := x.addObl("guard", "store:"+g.Target, n.reach, goal, "guard store "+g.Target+": "+g.Src, in.Pos())
 		o.Props = g.Props
+		g.Hits++
 	}
 }
 
